@@ -81,6 +81,7 @@ type Path struct {
 	dec0      string
 	lastAppend *appendInfo
 	preserved *State
+	defers0   int
 	loopStart map[string]Val
 	loopStartState State
 }
@@ -533,7 +534,7 @@ func (p *Path) assumeWF(term string, t types.Type) {
 	case *types.Pointer, *types.Map, *types.Chan, *types.Signature:
 		p.assume(fmt.Sprintf("(<= (stamp %s) %s)", term, p.st.now))
 	case *types.Slice:
-		p.assume(fmt.Sprintf("(and (<= (stamp (sl.arr %s)) %s) (<= 0 (sl.off %s)) (<= 0 (sl.len %s)) (<= (sl.len %s) (sl.cap %s)) (<= (sl.cap %s) 72057594037927936))", term, p.st.now, term, term, term, term, term))
+		p.assume(fmt.Sprintf("(and (<= (stamp (sl.arr %s)) %s) (<= 0 (sl.off %s)) (<= 0 (sl.len %s)) (<= (sl.len %s) (sl.cap %s)) (<= (sl.cap %s) 72057594037927936) (=> (= (sl.arr %s) nil) (= (sl.cap %s) 0)))", term, p.st.now, term, term, term, term, term, term, term))
 	case *types.Interface:
 		p.assume(fmt.Sprintf("(<= (stamp (iface_ref %s)) %s)", term, p.st.now))
 	case *types.Struct:
@@ -656,6 +657,10 @@ type Loc struct {
 	Region bool
 	Lo, Hi string // region: idx(Addr, k) for lo <= k < hi
 	FieldFn string // region of struct elements: the field address function applied to each element address
+	Inner   int64  // region of arrays of scalars: inner array length (address idx(idx(base,k),j))
+	RowsOf  string // map rows of every map stored in the array at this base address (entry-state heap term in RowsHeap)
+	RowsHeap string
+	RowsN   int64
 	MapRow bool                   // whole map row (Addr is the map ref) in a MapHas/MapVal heap
 	All    bool
 }
@@ -679,7 +684,8 @@ func (p *Path) flatLocs(addr string, t types.Type) []Loc {
 
 func (p *Path) regionLocs(base, lo, hi string, elem types.Type) []Loc {
 	env := p.fx.env
-	if isScalar(elem) || !structIsData(elem) {
+	_, elemIsStruct := elem.Underlying().(*types.Struct)
+	if isScalar(elem) || (elemIsStruct && !structIsData(elem)) {
 		return []Loc{{Heap: env.memHeap(elem), Addr: base, Region: true, Lo: lo, Hi: hi}}
 	}
 	// region of structs: each scalar field of each element
@@ -696,7 +702,11 @@ func (p *Path) regionLocs(base, lo, hi string, elem types.Type) []Loc {
 			out = append(out, Loc{Heap: env.memHeap(ft), Addr: base, Region: true, Lo: lo, Hi: hi, FieldFn: fn})
 		}
 	case *types.Array:
-		p.unsupported("region of arrays", nil)
+		if isScalar(u.Elem()) {
+			out = append(out, Loc{Heap: env.memHeap(u.Elem()), Addr: base, Region: true, Lo: lo, Hi: hi, Inner: u.Len()})
+		} else {
+			p.unsupported("region of arrays of aggregates", nil)
+		}
 	}
 	return out
 }
